@@ -226,8 +226,9 @@ TOKEN_SHAPES = [
     ("vector", "int {t}(const std::vector<int> &arg)"),
     ("bool", "bool {t}(bool flag)"),
     ("array", "void {t}(const double *arr +rank(1), int n +implied(size(arr)))"),
+    ("fntemplate", "template<typename T> void {t}(T arg)"),
 ]
-LUA_OK = ("plain", "scalar", "bool", "default")  # (return_this and overloads are not asserted for Lua)
+LUA_OK = ("plain", "scalar", "bool", "default", "fntemplate")  # (return_this and overloads are not asserted for Lua)
 
 
 def token_spec(rng, idx):
@@ -255,6 +256,9 @@ def token_spec(rng, idx):
                 over["c"] = True
         entries.append({"kind": "fn", "indent": indent, "decl": pat.format(t=tok), "tok": tok, "shape": shape,
                         "over": over})
+        if shape == "fntemplate":
+            # every instantiation is a declaration generated from this one and inherits its flags
+            entries[-1]["extra"] = ["cxx_template:", "- instantiation: <int>", "- instantiation: <double>"]
         if allow_overload and shape in ("plain", "scalar", "bool") and rng.random() < 0.3:
             # a C++ overload of the same name with its own flags
             over2 = {}
